@@ -76,14 +76,23 @@ type vfC06Sys struct {
 	remRet   map[string]bool
 	notifyAt bool
 	notifyCh chan struct{}
+	// the run loop has its answer from `connectedness` (computed when NotifyRead released it) and is
+	// parked before acting on it until NotifyPub: whatever the model does in between happens in between
+	rdAt  bool
+	rdVal string
+	rdCh  chan struct{}
 	closeRet bool
 	order    []string // observable callback log: "C+c1","C-c1","D+c1","D-c1"
+	// the harness's own ledger of what it has done (not model state)
+	seenL, addStarted, remStarted map[string]bool
+	closeCalled                   bool
 }
 
 func vfC06New(conns []string, peerOf map[string]string, limited map[string]bool) *vfC06Sys {
 	s := &vfC06Sys{conns: map[string]*Conn{}, name: map[*Conn]string{}, peerOf: peerOf, limited: limited,
 		peerID: map[string]peer.ID{}, inmap: map[string]bool{}, cg: map[string]*vfC06Gate{}, dg: map[string]*vfC06Gate{},
-		addRet: map[string]bool{}, remRet: map[string]bool{}, notifyCh: make(chan struct{})}
+		addRet: map[string]bool{}, remRet: map[string]bool{}, notifyCh: make(chan struct{}), rdCh: make(chan struct{}),
+		seenL: map[string]bool{}, addStarted: map[string]bool{}, remStarted: map[string]bool{}}
 	s.fe = &vfC06FakeEmitter{ids: map[peer.ID]string{}}
 	for _, c := range conns {
 		p := peerOf[c]
@@ -131,9 +140,19 @@ func (s *vfC06Sys) connectedness(p peer.ID) network.Connectedness {
 		<-s.notifyCh
 	}
 	s.mu.Lock()
-	defer s.mu.Unlock()
 	s.notifyAt = false
-	return s.cness(p)
+	v := s.cness(p)
+	s.rdAt = true
+	s.rdVal = map[network.Connectedness]string{network.Connected: "C", network.Limited: "L", network.NotConnected: "N"}[v]
+	free = s.free
+	s.mu.Unlock()
+	if !free {
+		<-s.rdCh
+	}
+	s.mu.Lock()
+	s.rdAt = false
+	s.mu.Unlock()
+	return v
 }
 
 func (s *vfC06Sys) gate(g *vfC06Gate, tag, c string) {
@@ -167,6 +186,12 @@ type vfC06State struct {
 	NDisc     map[string]int    `json:"nDisc"`
 	Pub       [][]string        `json:"pub"`
 	Closed    string            `json:"closed"`
+	Rd        struct {
+		On  bool   `json:"on"`
+		P   string `json:"p"`
+		Typ string `json:"typ"`
+		New string `json:"new"`
+	} `json:"rd"`
 }
 
 // apply performs one model action on the real emitter.
@@ -176,12 +201,16 @@ func (s *vfC06Sys) apply(op vfh.Op) {
 	case "register":
 		s.mu.Lock()
 		s.inmap[c] = true
+		s.seenL[c] = true
 		s.mu.Unlock()
 	case "unregister":
 		s.mu.Lock()
 		s.inmap[c] = false
 		s.mu.Unlock()
 	case "addstart":
+		s.mu.Lock()
+		s.addStarted[c] = true
+		s.mu.Unlock()
 		go func() {
 			s.em.AddConn(s.conns[c])
 			s.mu.Lock()
@@ -199,18 +228,29 @@ func (s *vfC06Sys) apply(op vfh.Op) {
 		default:
 		}
 	case "remstart":
+		s.mu.Lock()
+		s.remStarted[c] = true
+		s.mu.Unlock()
 		go func() {
 			s.em.RemoveConn(s.conns[c])
 			s.mu.Lock()
 			s.remRet[c] = true
 			s.mu.Unlock()
 		}()
-	case "notify":
+	case "notifyread":
 		select {
 		case s.notifyCh <- struct{}{}:
 		default:
 		}
+	case "notifypub":
+		select {
+		case s.rdCh <- struct{}{}:
+		default:
+		}
 	case "closecall":
+		s.mu.Lock()
+		s.closeCalled = true
+		s.mu.Unlock()
 		go func() {
 			s.em.Close()
 			s.mu.Lock()
@@ -276,7 +316,7 @@ func (s *vfC06Sys) observe(m *vfC06State, conns []string) (string, string, any, 
 		lastPub[e[0]] = e[1]
 	}
 	// L1 at quiescence: the last published state is the truth
-	quiet := len(m.Queue) == 0 && m.Closed == "open"
+	quiet := len(m.Queue) == 0 && m.Closed == "open" && !m.Rd.On
 	for _, c := range m.Seen {
 		if !(m.Apc[c] == "done" || m.Apc[c] == "skipped") {
 			quiet = false
@@ -291,7 +331,7 @@ func (s *vfC06Sys) observe(m *vfC06State, conns []string) (string, string, any, 
 			quiet = false
 		}
 	}
-	if quiet && !s.notifyAt && len(s.em.peerConnectednessCh) == 0 {
+	if quiet && !s.notifyAt && !s.rdAt && len(s.em.peerConnectednessCh) == 0 {
 		for p, id := range s.peerID {
 			truth := map[network.Connectedness]string{network.Connected: "C", network.Limited: "L", network.NotConnected: "N"}[s.cness(id)]
 			got, ok := lastPub[p]
@@ -344,7 +384,130 @@ func (s *vfC06Sys) observe(m *vfC06State, conns []string) (string, string, any, 
 	if q != len(m.Queue) {
 		return "L2:queue", "queued connectedness events differ", len(m.Queue), q
 	}
+	if s.rdAt != m.Rd.On || (s.rdAt && s.rdVal != m.Rd.New) {
+		return "L2:lookup", "the run loop's pending connectedness look-up differs", m.Rd, []any{s.rdAt, s.rdVal}
+	}
 	return "", "", nil, nil
+}
+
+// pure checks the clauses that need no model state: callback order and multiplicity, no repeated
+// published state, and - whenever the real emitter is observably at rest and the harness owes it no call -
+// that the last published state of every peer is the truth.  Usable after the model and the real
+// emitter got out of step.
+func (s *vfC06Sys) pure(conns []string) (string, string, any, any) {
+	s.mu.Lock()
+	defer s.mu.Unlock()
+	seenC := map[string]bool{}
+	for _, e := range s.order {
+		if e[:2] == "C-" {
+			seenC[e[2:]] = true
+		}
+		if e[:2] == "D+" && !seenC[e[2:]] {
+			return "disconnected-before-connected-returned", "Disconnected started before Connected returned for " + e[2:], nil, s.order
+		}
+	}
+	rest := !s.notifyAt && !s.rdAt && len(s.em.peerConnectednessCh) == 0 && !s.closeCalled
+	for _, c := range conns {
+		if s.cg[c].entered > 1 || s.dg[c].entered > 1 {
+			return "callback-twice", fmt.Sprintf("a callback started more than once for %s", c), 1, []int{s.cg[c].entered, s.dg[c].entered}
+		}
+		if s.cg[c].entered != s.cg[c].finished || s.dg[c].entered != s.dg[c].finished {
+			rest = false
+		}
+		if s.addStarted[c] != s.addRet[c] || s.remStarted[c] != s.remRet[c] {
+			rest = false
+		}
+		if s.seenL[c] && !s.addStarted[c] {
+			rest = false // the harness still owes AddConn
+		}
+		if s.seenL[c] && !s.inmap[c] && !s.remStarted[c] {
+			rest = false // the harness still owes RemoveConn
+		}
+		if !s.closeCalled && s.addRet[c] && s.remRet[c] && s.cg[c].entered == 1 && s.dg[c].entered != 1 { // (a closing emitter lets calls return at once)
+			return "disconnected-missing", fmt.Sprintf("AddConn and RemoveConn of %s returned, Connected ran, Disconnected never did", c), 1, s.dg[c].entered
+		}
+	}
+	s.fe.mu.Lock()
+	lastPub := map[string]string{}
+	var pub [][]string
+	for _, e := range s.fe.evs {
+		pub = append(pub, []string{e[0], e[1]})
+		prev, ok := lastPub[e[0]]
+		if !ok {
+			prev = "N"
+		}
+		if e[1] == prev && e[1] != "N" {
+			s.fe.mu.Unlock()
+			return "connectedness-repeated", fmt.Sprintf("state %s published twice in a row for %s", e[1], e[0]), nil, pub
+		}
+		lastPub[e[0]] = e[1]
+	}
+	s.fe.mu.Unlock()
+	if rest {
+		for p, id := range s.peerID {
+			truth := map[network.Connectedness]string{network.Connected: "C", network.Limited: "L", network.NotConnected: "N"}[s.cness(id)]
+			got, ok := lastPub[p]
+			if !ok {
+				got = "N"
+			}
+			if got != truth {
+				return "connectedness-stale", fmt.Sprintf("at rest the last published state of %s is %s but it is %s", p, got, truth), truth, got
+			}
+		}
+	}
+	return "", "", nil, nil
+}
+
+// settle gives the emitter every call the harness still owes it and lets everything run to rest.
+func (s *vfC06Sys) settle(conns []string) {
+	s.mu.Lock()
+	closed := s.closeCalled
+	var owedAdd, owedRem []string
+	for _, c := range conns {
+		if s.seenL[c] && !s.addStarted[c] {
+			owedAdd = append(owedAdd, c)
+		}
+		if s.seenL[c] && !s.inmap[c] && !s.remStarted[c] {
+			owedRem = append(owedRem, c)
+		}
+	}
+	s.mu.Unlock()
+	if closed {
+		return
+	}
+	for _, c := range owedAdd {
+		s.apply(vfh.Op{"name": "addstart", "c": c})
+	}
+	for _, c := range owedRem {
+		s.apply(vfh.Op{"name": "remstart", "c": c})
+	}
+	for i := 0; i < 200; i++ {
+		synctest.Wait()
+		progressed := false
+		for _, g := range []map[string]*vfC06Gate{s.cg, s.dg} {
+			for _, c := range conns {
+				select {
+				case g[c].release <- struct{}{}:
+					progressed = true
+				default:
+				}
+			}
+		}
+		select {
+		case s.notifyCh <- struct{}{}:
+			progressed = true
+		default:
+		}
+		select {
+		case s.rdCh <- struct{}{}:
+			progressed = true
+		default:
+		}
+		if !progressed {
+			break
+		}
+	}
+	synctest.Wait()
 }
 
 func (s *vfC06Sys) teardown() {
@@ -366,6 +529,11 @@ func (s *vfC06Sys) teardown() {
 		}
 		select {
 		case s.notifyCh <- struct{}{}:
+			progressed = true
+		default:
+		}
+		select {
+		case s.rdCh <- struct{}{}:
 			progressed = true
 		default:
 		}
@@ -411,6 +579,7 @@ func TestVerifC06Emitter(t *testing.T) {
 				sys := vfC06New(conns, peerOf, limited)
 				defer sys.teardown()
 				var prefix []vfh.Op
+				outOfStep, failed := false, false
 				prev := string(w.Init)
 				for i, st := range w.Steps {
 					prefix = append(prefix, st.Op)
@@ -422,11 +591,32 @@ func TestVerifC06Emitter(t *testing.T) {
 					res.Case(filepath.Base(f) + "|" + prev + "|" + vfh.Canon(st.Op))
 					prev = string(st.State)
 					res.Count(0, 1)
-					cls, what, exp, got := sys.observe(&m, conns)
+					var cls, what string
+					var exp, got any
+					if !outOfStep {
+						cls, what, exp, got = sys.observe(&m, conns)
+					} else {
+						cls, what, exp, got = sys.pure(conns)
+					}
 					if cls != "" {
 						res.AddMismatch(vfh.Mismatch{Class: cls, What: what, Walk: w.Walk, Step: i, Expected: exp, Got: got, Prefix: prefix,
 							Cfg: map[string]any{"file": filepath.Base(f)}})
-						break // the real emitter and the model are out of step: the walk cannot go on
+						if len(cls) > 3 && cls[:3] == "L2:" && !outOfStep {
+							// the real emitter and the model are out of step: the rest of the walk is still a
+							// legal history for the real emitter, judged by the model-free clauses only
+							outOfStep = true
+							continue
+						}
+						failed = true
+						break
+					}
+				}
+				if !failed {
+					// every walk ends at rest: the calls still owed are made, every gate opens
+					sys.settle(conns)
+					if cls, what, exp, got := sys.pure(conns); cls != "" {
+						res.AddMismatch(vfh.Mismatch{Class: cls, What: what, Walk: w.Walk, Step: len(w.Steps), Expected: exp, Got: got, Prefix: prefix,
+							Cfg: map[string]any{"file": filepath.Base(f), "at": "settled"}})
 					}
 				}
 				res.Count(1, 0)
